@@ -72,6 +72,10 @@ func (m *vfModel) handler(req vfPkt, raw []byte) []byte {
 		return vfPkt{Type: rfHandle, ID: req.ID, Handle: h}.Frame()
 	case rfClose:
 		return st(rfOK, "")
+	case rfOpendir:
+		return vfPkt{Type: rfHandle, ID: req.ID, Handle: "dir"}.Frame()
+	case rfReaddir:
+		return st(rfEOF, "EOF")
 	case rfFstat:
 		m.mu.Lock()
 		fn := m.handles[req.Handle]
